@@ -19,6 +19,22 @@ PROFILE = {"n_seasons": [1, 2, 2, 3, 4, 5], "newyear_p": 0.3, "leap_end_p": 0.05
 
 
 def gen_case(rng, tier, idx):
+    if idx % 8 == 3:
+        # year-long seasons: a crop that stands (nearly) a full year, harvested and replanted on the same date or within days of
+        # it, so that a season's last day and the next season's first day touch - with and without off-season simulation
+        import datetime as dt
+        from ..domain import CROP_INFO
+        case = std_case(rng, dict(PROFILE, crops=["SugarCane", "SugarCane", "Cassava", "AlfalfaGDD"], n_seasons=[2, 3, 4], off_season_p=0.7,
+                                  start_rel=["at", "at", "before"], end_kinds=["after", "eoy", "harvestish"], sensible_planting_p=0.9,
+                                  irr_methods=[1, 1, 4, 0], events_per_year=0.3, leap_end_p=0.0))
+        crop = case["spec"]["crop"]
+        if crop["name"] != "AlfalfaGDD":
+            m, d = [int(x) for x in crop["planting_date"].split("/")]
+            h = dt.date(2001, m, d) + dt.timedelta(days=rng.choice([0, 0, 0, -1, -2, -7]))
+            crop["harvest_date"] = f"{h.month:02d}/{h.day:02d}"
+            if case["spec"]["irr"]["method"] == 1:
+                case["spec"]["irr"]["kwargs"]["SMT"] = [70, 70, 70, 70]
+        return case
     case = std_case(rng, PROFILE)
     if rng.random() < 0.2:
         # explicit latest harvest date
